@@ -6,8 +6,9 @@ import os
 VERIF = os.path.dirname(os.path.dirname(os.path.abspath(__file__)))
 
 SRC = (" The Numba kernels are additionally TRANSLATED from the current source on every run — whole kernels with their loops, array stores and calls (harness/kernels2.py → "
-       "Model/Generated/Full*.lean) and the decision-logic cores of the float-bearing ones (harness/kernels.py → Kernels*.lean) — and proved equal to the hand-written model for all "
-       "inputs (Properties/Full*.lean, Properties/Src*.lean), so a changed kernel breaks a proof obligation.")
+       "Model/Generated/Full*.lean), the class methods that wrap them incl. the batch entry points (harness/methods.py → Methods.lean) and the decision-logic cores of the float-bearing "
+       "ones (harness/kernels.py → Kernels*.lean) — and proved equal to the hand-written model for all inputs (Properties/Full*.lean, FullApi.lean, Src*.lean), so a changed kernel "
+       "or method breaks a proof obligation.")
 
 SCHEMA = (" The class-level code (constructor validation, what save() writes and load() copies back, the shared-memory byte layouts of __init__ and attach_existing_shm) is TRANSLATED "
           "from the current source on every run (harness/schema.py → Model/Generated/Schema.lean) and proved to be the modelled one for all shapes (Properties/SrcSchema.lean).")
@@ -59,7 +60,7 @@ CHECKS.update({
              "answer equals the answer recomputed from the current cells (invariant: cache valid or detectably stale). The run re-checks the proofs and compares every real answer "
              "(cache hit and miss paths counted) with the model, with the model's fresh recomputation and with a freshly loaded real copy."
              + SRC + "",
-        tech="Lean 4 proof (cache-freshness invariant over operation sequences; sortedness/permutation lemmas) + differential correspondence",
+        tech="Lean 4 proof (cache-freshness invariant over operation sequences; sortedness/permutation lemmas; the cache test of query() and the cell visit of generate_candidate_set translated from source) + differential correspondence",
         ref="§4 C13"),
 })
 
@@ -145,7 +146,7 @@ CHECKS.update({
         text="Translation validation in nature. Proved on the tables REGENERATED from the source on every run (decide +kernel): 10×200 points, every raw-estimate row strictly increasing, "
              "raw[0]-bias[0] = threshold and raw[199]-bias[199] = 5·2^p exactly; the estimator's literal constants; and over any ordered field the branch structure (spec_*) and the interpolation "
              "(interp_left/inside/skip/between/right). The run compares real query() on boundary-placed register arrays with an independent rendering of the documented estimator and the Lean Float mirror.",
-        tech="Lean 4 proof over translated tables (decide +kernel) and of the branch/interpolation structure + float correspondence at 1e-9",
+        tech="Lean 4 proof over translated tables (decide +kernel) and of the branch/interpolation structure (the branch structure of _query translated from source = hllSpec) + float correspondence at 1e-9",
         note=TB + " Float evaluation is compared (1e-9), not proved.",
         ref="§4 C17"),
     "C20": dict(
@@ -168,7 +169,7 @@ CHECKS.update({
              "C08_hll_result (the merged HyperLogLog IS the sequential one), C08_cms_bounds / C08_hh_bounds (C01 / C03 / C04 hold of the merged result w.r.t. the whole stream), "
              "runActions_reach (traces validated by the driver are runs of the protocol). "
              "The run drives the REAL parallel_add code in-process over all small assignments and random valid protocol traces and compares results with sequential processing and the model.",
-        tech="Lean 4 proof (protocol invariant over all interleavings, merge-tree characterisation) + exhaustive small-schedule correspondence on the real worker/merge code",
+        tech="Lean 4 proof (protocol invariant over all interleavings, merge-tree characterisation; the round structure of parallel_merging translated from source = mergeRound) + exhaustive small-schedule correspondence on the real worker/merge code",
         note=TB + " NOT PROVED (runtime): OS scheduling, spawn/pickling, shared-memory coherence, the multiprocessing queue's FIFO/exactly-once contract (assumed).",
         ref="§4 C08"),
     "C19": dict(
